@@ -98,6 +98,7 @@ class GenOpts:
     name_families: float = 0.15     # names that extend/truncate existing names textually
     mc_decoys: str = 'random'       # random | both | literal: decoy events called Claim/Release
     mc_shape: Optional[int] = None  # parameter directions of the claim/release events (cycled)
+    many: float = 0.04              # probability of a two-digit count (events, formals, ports)
 
 
 @dataclass
@@ -129,7 +130,12 @@ class ModelGen:
         self.mc_interfaces: List[Any] = []
 
     # -- helpers ------------------------------------------------------------------------------
-    def _rint(self, lohi: Tuple[int, int]) -> int:
+    def _rint(self, lohi: Tuple[int, int], many: Optional[Tuple[int, int]] = None) -> int:
+        """A count in lohi; now and then (GenOpts.many) a count from `many` - more than nine of
+        something is a size class of its own (textual order of numbered names, single-digit
+        assumptions)."""
+        if many is not None and self.o.many and self.rng.random() < self.o.many:
+            return self.rng.randint(many[0], many[1])
         return self.rng.randint(lohi[0], lohi[1])
 
     def _name(self, node: NsNode, style: Optional[str] = None) -> str:
@@ -375,13 +381,13 @@ class ModelGen:
         rng, o = self.rng, self.o
         fqn, itf, _node = ent
         taken: set = {t.name[0] for t in itf.types if not isinstance(t, M.Unknown)}
-        n = self._rint(o.n_events) if n_events is None else n_events
+        n = self._rint(o.n_events, (10, 13)) if n_events is None else n_events
         for _ in range(n):
             direction = rng.choice(['in', 'in', 'out'])
             ename = fresh(rng, taken, rng.choice(['camel', 'single', 'snake', 'digit', 'under']))
             formals = []
             ftaken: set = set()
-            for _f in range(0 if rng.random() < 0.35 else self._rint(o.n_formals)):
+            for _f in range(0 if rng.random() < 0.35 else self._rint(o.n_formals, (10, 12))):
                 if not self.externs:
                     break
                 xt, _x = rng.choice(self.externs)
@@ -423,8 +429,10 @@ class ModelGen:
         ports: List[M.Port] = []
         # C++: a data member may not be named like its class (mock component struct)
         ptaken: set = {name[0].upper() + name[1:], name[0].lower() + name[1:]}
-        spec = [('provides', False, self._rint(o.n_provides) if n_provides is None else n_provides),
-                ('requires', False, self._rint(o.n_requires) if n_requires is None else n_requires),
+        wide = (5, 7) if (o.many and rng.random() < o.many) else None
+        draw = (lambda lohi: rng.randint(*wide)) if wide else self._rint
+        spec = [('provides', False, draw(o.n_provides) if n_provides is None else n_provides),
+                ('requires', False, draw(o.n_requires) if n_requires is None else n_requires),
                 ('requires', True, self._rint(o.n_injected) if n_injected is None else n_injected)]
         for direction, injected, count in spec:
             for _ in range(count):
